@@ -29,7 +29,9 @@ class Malformed(Harness):
     stubs = ("SymFile in place of the OS file / gzip stream",)
     bounds = {"quick": "FASTA/FASTQ records whose marker byte (or FASTQ '+') is any other byte; BED3/BED6 files with any non-digit byte in a "
                        "numeric cell or any byte outside '+-.' in the strand cell; 2-3 records, the violation at every record position; every "
-                       "chunk size from the largest entry to file size + 1 (symbolic) and the whole-file read; lazy and eager; seek and prepend",
+                       "chunk size from the largest entry to file size + 1 (symbolic) and the whole-file read; lazy and eager; seek and prepend; "
+                       "SAM (flag, position, mapq), VCF (position), GTF (start, stop), narrowPeak (stop, summit) files of 3 one-character records with a non-digit byte; "
+                       "a deleted FASTQ '+' line at every record; float texts with two dots or no digit; empty integer cells",
               "thorough": "4 records, wider cells, violations in multi-digit cells at every digit position"}
     assumptions = ("chunk sizes smaller than the largest entry are outside this check (C01 covers them)",)
 
@@ -77,6 +79,19 @@ class Malformed(Harness):
                 dots = {k: -1 for k in exp}
                 for lazy, mode, chunked in ((True, "seek", False), (False, "seek", True)):
                     out.append(dict(fmt="bedgraph", rows=[[1, 1, 1, 3]] * 3, exp=exp, dot=dots, bad=list(bad), lazy=lazy, mode=mode, chunked=chunked))
+        # the other delimited formats: SAM (flag, position, mapping quality), VCF (position), GTF (start, stop), narrowPeak (summit)
+        one = lambda n: [1] * n
+        for fmt, ncols, cells in (("sam", 11, ((1, 0), (3, 0), (4, 0))), ("vcf", 8, ((1, 0),)), ("gtf", 9, ((3, 0), (4, 0))), ("narrowpeak", 10, ((9, 0), (2, 0)))):
+            base = [one(ncols) for _ in range(3)]
+            if fmt == "narrowpeak":
+                for r in base:
+                    r[6] = r[7] = r[8] = 3
+            for bad in ((1, 2) if tier == "quick" else (0, 1, 2)):
+                for col, pos in cells:
+                    for lazy, mode, chunked in ((True, "seek", False), (False, "seek", True)):
+                        if tier == "quick" and (bad, lazy) == (2, True):
+                            continue
+                        out.append(dict(fmt=fmt, rows=base, bad=[bad, col, pos], lazy=lazy, mode=mode, chunked=chunked))
         # an empty numeric cell (the column count is right, the text between the separators is empty)
         for fmt, base, cells in (("bed3", [[1, 1, 1], [1, 2, 2], [2, 1, 1]], (1, 2)), ("bed6", [[1, 1, 1, 1, 1, 1], [1, 2, 1, 1, 2, 1], [1, 1, 2, 1, 1, 1]], (1, 2))):
             for bad in range(len(base)):
